@@ -276,6 +276,27 @@ class Ctx:
         self.extra["apalache_obligations_discharged"] = self.extra.get("apalache_obligations_discharged", 0) + 1
         return ok
 
+    def tlapm(self, tla_file, needs=(), timeout=300):
+        """TLAPS run on spec/ind/<tla_file> (with the modules it extends): every obligation must be proved."""
+        d = os.path.join(self.scratch, "tlapm%d" % len(self.checker_cmds))
+        os.makedirs(d, exist_ok=True)
+        for f in (tla_file,) + tuple(needs):
+            shutil.copy(os.path.join(VERIF, "spec", "ind", f), d)
+        e = dict(os.environ, TMPDIR=d)
+        t = time.time()
+        p = subprocess.run(["timeout", str(timeout), "tlapm", "--threads", str(min(NCPU, 8)), tla_file], cwd=d, env=e,
+                           capture_output=True, text=True)
+        out = p.stdout + p.stderr
+        m = re.search(r"All (\d+) obligations? proved", out)
+        log("tlapm %s: %s %.1fs" % (tla_file, m.group(0) if m else "NOT PROVED", time.time() - t))
+        self.checker_cmds.append("tlapm %s" % tla_file)
+        if p.returncode == 124:
+            raise Inconclusive("tlapm timeout on %s" % tla_file)
+        if not m or p.returncode != 0:
+            raise Inconclusive("tlapm did not prove %s:\n%s" % (tla_file, out[-1500:]))
+        self.extra["tlaps_obligations_proved"] = self.extra.get("tlaps_obligations_proved", 0) + int(m.group(1))
+        return int(m.group(1))
+
     def tlc_model(self, module, cfg, **kw):
         """TLC run that must be clean: a failure is a broken *specification* -> exit 2."""
         res = self.tlc(module, cfg, **kw)
